@@ -3,8 +3,8 @@ package main
 var propTable = map[string]*propSpec{
 	"C02": {
 		ID:          "C02",
-		Rules:       []string{"R-REGTABLE", "R-DISPATCH", "R-OPNAMES", "R-DIVZERO"},
-		Explanation: "Decides only the pairing part of 'every arithmetic, bitwise and relational operator returns the result the manual defines': each operator of the source reaches the runtime function of that operator and no other — ops.Op to code operator (same-name maps, total over what astcomp lets through), code operator to its case in the interpreter loop, the case to the runtime function that implements it (R-DISPATCH b, c), the metamethod name each arithmetic case, each bitwise helper and each string-arithmetic metamethod passes on (R-OPNAMES) — and every integer division and modulo has a divisor excluded from zero on every path (R-DIVZERO: n // 0 and n % 0 are Lua errors, not Go panics).",
+		Rules:       []string{"R-REGTABLE", "R-DISPATCH", "R-OPNAMES", "R-ARITHKIND", "R-DIVZERO"},
+		Explanation: "Decides only the pairing part of 'every arithmetic, bitwise and relational operator returns the result the manual defines': each operator of the source reaches the runtime function of that operator and no other — ops.Op to code operator (same-name maps, total over what astcomp lets through), code operator to its case in the interpreter loop, the case to the runtime function that implements it (R-DISPATCH b, c), the metamethod name each arithmetic case, each bitwise helper and each string-arithmetic metamethod passes on (R-OPNAMES) — and every integer division and modulo has a divisor excluded from zero on every path (R-DIVZERO: n // 0 and n % 0 are Lua errors, not Go panics). (R-ARITHKIND) The six type-dispatched arithmetic functions have, arm by arm, the result kind and the Go operator or helper of the manual's table: integer with integer stays an int64 computed with + - * (wrapping modulo 2^64 is then Go's own semantics), any float operand makes a float, / is always a float quotient, // and % go to the integer helpers only for two integers; operands are taken from the first and second parameter in that order.",
 		NotDecided:  "everything the property is really about: the values computed by the arithmetic helpers over the int64 x float64 operand space (wrap-around, floor division and modulo signs, exact mixed comparison, conversions, numeral decoding, the math library). Those are value-level; a sound argument would be an abstract-interpretation or solver proof, which is a different family. Known value-level defects seen while reading are listed in DESIGN.md and are not findings of this check.",
 		Assumptions: []string{"the frozen operator tables (operator - runtime function - metamethod name) were transcribed from the manual and confirmed by reading"},
 	},
